@@ -33,9 +33,12 @@ class ExactAlgorithmCplex(ExactAlgorithmBase, PairwiseBasedAlgorithm):
     from the IBM website. While CPLEX is not open source, there is a free version available for academic use.
     More information can be found at: https://www.ibm.com/products/ilog-cplex-optimization-studio
 
-    :ivar _PRECISION_THRESHOLD: float representing the precision threshold used for floating point comparison
+    :ivar _PRECISION_THRESHOLD: float representing the precision threshold used for floating point comparison. It must
+        be 0: the "no ties" optimisation is sound only if no pair of elements is strictly cheaper to tie than the mean
+        of its two orders, whatever the magnitude of the penalties (a positive threshold forbids ties wrongly when the
+        penalties are small)
     """
-    _PRECISION_THRESHOLD = 0.001
+    _PRECISION_THRESHOLD = 0.
 
     def __init__(self, optimize=True):
         """
